@@ -367,9 +367,33 @@ impl Value {
             },
             Self::Json(v) => {
                 let mut hasher = std::collections::hash_map::DefaultHasher::new();
-                v.to_string().hash(&mut hasher);
+                // JSON numbers compare with `f64 ==` (-0.0 == 0.0) but render differently, so both
+                // zeros must be hashed as one text.
+                Self::json_with_positive_zeros(v)
+                    .to_string()
+                    .hash(&mut hasher);
                 format!("j:{:x}", hasher.finish())
             },
+        }
+    }
+
+    /// Copy of a JSON value in which every floating-point zero is `0.0`: values that are equal
+    /// under `serde_json::Value`'s `PartialEq` get the same rendered text.
+    fn json_with_positive_zeros(v: &serde_json::Value) -> serde_json::Value {
+        match v {
+            serde_json::Value::Number(n) if n.is_f64() && n.as_f64() == Some(0.0) => {
+                serde_json::Value::from(0.0_f64)
+            },
+            serde_json::Value::Array(items) => serde_json::Value::Array(
+                items.iter().map(Self::json_with_positive_zeros).collect(),
+            ),
+            serde_json::Value::Object(fields) => serde_json::Value::Object(
+                fields
+                    .iter()
+                    .map(|(k, x)| (k.clone(), Self::json_with_positive_zeros(x)))
+                    .collect(),
+            ),
+            other => other.clone(),
         }
     }
 
